@@ -752,3 +752,183 @@ Proof.
   - intros d t Hd Ht. apply sort_uniq_In. apply in_concat. eauto.
   - intros i l j Hi Hj. apply (uni_transform_cell _ ls); assumption.
 Qed.
+
+(* ---------------- __add__ ---------------- *)
+Lemma map_opt_total {A B} (f : A -> option B) (g : A -> B) l :
+  (forall x, In x l -> f x = Some (g x)) -> map_opt f l = Some (map g l).
+Proof.
+  induction l as [|x l IH]; intros H; [reflexivity|]. cbn [map_opt map].
+  rewrite (H x) by (left; reflexivity). rewrite IH by (intros y Hy; apply H; right; exact Hy). reflexivity.
+Qed.
+
+Lemma lookup_map_values (F : Z -> Z) (d : dict) k :
+  In k (map snd d) -> lookup k (map (fun kv => (snd kv, F (snd kv))) d) = Some (F k).
+Proof.
+  unfold lookup. induction d as [|[l v] d IH]; cbn [map snd In alookup fst]; [tauto|].
+  destruct (v =? k) eqn:E; [apply Z.eqb_eq in E; subst; reflexivity|].
+  apply Z.eqb_neq in E. intros [H|H]; [congruence|]. apply IH, H.
+Qed.
+
+Lemma memZ_In x l : memZ x l = true <-> In x l.
+Proof.
+  unfold memZ. rewrite existsb_exists. split.
+  - intros [y [Hy E]]. apply Z.eqb_eq in E. subst. exact Hy.
+  - intros H. exists x. split; [exact H|apply Z.eqb_refl].
+Qed.
+
+Lemma disjoint_vocab_wf a la b lb :
+  uni_wf a la -> uni_wf b lb -> disjoint_vocab a b = filter (fun l => negb (memZ l la)) lb.
+Proof.
+  intros [_ [Ha _]] [NDb [Hb _]]. unfold disjoint_vocab. rewrite Ha, Hb. unfold enum_idx.
+  rewrite !invert_snd, !enum_dict_keys. rewrite (nodup_fixed_point Z.eq_dec NDb). reflexivity.
+Qed.
+
+Definition rho (lb lc : list Z) (jb : Z) : Z :=
+  match index_of (nth (Z.to_nat jb) lb 0) lc with Some jc => jc | None => 0 end.
+
+Lemma In_enum_dict ls l j : In (l, j) (enum_dict ls) -> (0 <= j < Z.of_nat (length ls)) /\ l = nth (Z.to_nat j) ls 0.
+Proof.
+  unfold enum_dict. assert (G : forall a, In (l, j) (combine ls (map Z.of_nat (seq a (length ls)))) ->
+    Z.of_nat a <= j < Z.of_nat a + Z.of_nat (length ls) /\ l = nth (Z.to_nat j - a) ls 0).
+  { induction ls as [|x ls IH]; intros a; cbn [length seq map combine In]; [tauto|].
+    intros [[= -> <-]|H].
+    - split; [lia|]. replace (Z.to_nat (Z.of_nat a) - a)%nat with 0%nat by lia. reflexivity.
+    - apply IH in H. destruct H as [H1 H2]. split; [lia|].
+      replace (Z.to_nat j - a)%nat with (S (Z.to_nat j - S a)) by lia. exact H2. }
+  intros H. apply G in H. rewrite Nat.sub_0_r in H. destruct H as [H1 H2]. split; [lia|exact H2].
+Qed.
+
+Lemma NoDup_app_intro {A} (l1 l2 : list A) :
+  NoDup l1 -> NoDup l2 -> (forall x, In x l1 -> ~ In x l2) -> NoDup (l1 ++ l2).
+Proof.
+  induction l1 as [|x l1 IH]; intros N1 N2 H; [exact N2|]. inversion N1 as [|? ? Hn N1']; subst.
+  cbn [app]. constructor.
+  - intros Hin. apply in_app_or in Hin. destruct Hin as [Hin|Hin]; [tauto|]. apply (H x); [left; reflexivity|exact Hin].
+  - apply IH; [exact N1'|exact N2|]. intros y Hy. apply H. right. exact Hy.
+Qed.
+
+Lemma perm_disjoint_facts la lb ord :
+  NoDup la -> NoDup lb -> Permutation ord (filter (fun l => negb (memZ l la)) lb) ->
+  NoDup (la ++ ord) /\ (forall l, In l (la ++ ord) <-> In l la \/ In l lb).
+Proof.
+  intros NDa NDb P.
+  assert (Hord : forall l, In l ord <-> In l lb /\ ~ In l la).
+  { intros l. split.
+    - intros H. apply (Permutation_in _ P) in H. apply filter_In in H. destruct H as [H1 H2]. split; [exact H1|].
+      intros Hla. apply memZ_In in Hla. rewrite Hla in H2. discriminate.
+    - intros [H1 H2]. apply (Permutation_in _ (Permutation_sym P)). apply filter_In. split; [exact H1|].
+      destruct (memZ l la) eqn:E; [apply memZ_In in E; tauto|reflexivity]. }
+  split.
+  - apply NoDup_app_intro; [exact NDa| |].
+    + eapply Permutation_NoDup; [apply Permutation_sym, P|]. apply NoDup_filter. exact NDb.
+    + intros x Hx Ho. apply Hord in Ho. tauto.
+  - intros l. rewrite in_app_iff, Hord. destruct (in_dec Z.eq_dec l la); tauto.
+Qed.
+
+Lemma trow_mk (r c v : Z) : trow (r, c, v) = r. Proof. reflexivity. Qed.
+Lemma tcol_mk (r c v : Z) : tcol (r, c, v) = c. Proof. reflexivity. Qed.
+Lemma tval_mk (r c v : Z) : tval (r, c, v) = v. Proof. reflexivity. Qed.
+Lemma nrows_mk r c (e : list triple) : nrows (r, c, e) = r. Proof. reflexivity. Qed.
+Lemma ncols_mk r c (e : list triple) : ncols (r, c, e) = c. Proof. reflexivity. Qed.
+Lemma entries_mk r c (e : list triple) : entries (r, c, e) = e. Proof. reflexivity. Qed.
+
+Theorem ng_add_counts_ok ord a la Xa b lb Xb :
+  counts_ok a la Xa -> counts_ok b lb Xb -> Permutation ord (disjoint_vocab a b) ->
+  exists c, ng_add ord a b = Ok c /\ counts_ok c (la ++ ord) (Xa ++ Xb).
+Proof.
+  intros [Wa [Hna [Hca [Hra [Hta Hcella]]]]] [Wb [Hnb [Hcb [Hrb [Htb Hcellb]]]]] P.
+  rewrite (disjoint_vocab_wf a la b lb Wa Wb) in P.
+  destruct Wa as [NDa [Hia Hla]]. destruct Wb as [NDb [Hib Hlb]].
+  destruct (perm_disjoint_facts la lb ord NDa NDb P) as [NDc Hin].
+  set (lc := la ++ ord) in *.
+  assert (Hlc : length lc = (length la + length ord)%nat) by (unfold lc; apply app_length).
+  unfold ng_add. set (ta := u_train a) in *. set (tb := u_train b) in *. clearbody ta tb.
+  rewrite Hia, Hlb. rewrite <- enum_idx_app. fold lc.
+  replace (invert (enum_idx lc)) with (enum_dict lc) by (unfold enum_idx; rewrite invert_invert; reflexivity).
+  (* right_to_joint_index_map *)
+  rewrite (map_opt_total _ (fun kv => (snd kv, rho lb lc (snd kv)))).
+  2:{ intros [l jb] Hkv. cbn [fst snd]. apply In_enum_dict in Hkv. destruct Hkv as [Hjb ->].
+      rewrite lookup_enum_dict. unfold rho.
+      destruct (index_of_In (nth (Z.to_nat jb) lb 0) lc) as [jc Hjc].
+      { apply Hin. right. apply nth_In. lia. }
+      rewrite Hjc. reflexivity. }
+  (* the relabelled bottom block *)
+  rewrite (map_opt_total _ (fun t => (trow t + nrows ta, rho lb lc (tcol t), tval t))).
+  2:{ intros t Ht. rewrite lookup_map_values; [reflexivity|].
+      rewrite enum_dict_values. apply in_map_iff. exists (Z.to_nat (tcol t)).
+      destruct (Hrb t Ht) as [_ Hc]. split; [lia|]. apply in_seq. lia. }
+  eexists. split; [reflexivity|].
+  assert (Hlenc : length (enum_idx lc) = length lc).
+  { unfold enum_idx, invert. rewrite map_length. apply enum_dict_length. }
+  (* facts about rho *)
+  assert (Hrho : forall k l, (k < length lb)%nat -> nth k lb 0 = l ->
+                  index_of l lc = Some (rho lb lc (Z.of_nat k))).
+  { intros k l Hk Hl. unfold rho. rewrite Nat2Z.id, Hl.
+    destruct (index_of_In l lc) as [jc Hjc]; [apply Hin; right; rewrite <- Hl; apply nth_In; exact Hk|].
+    rewrite Hjc. reflexivity. }
+  unfold counts_ok, uni_wf, u_idx, u_lab, u_train; cbn [fst snd].
+  split; [split; [exact NDc|split; reflexivity]|].
+  split; [rewrite nrows_mk, Hna, Hnb, app_length; lia|].
+  split; [rewrite ncols_mk, Hlenc; reflexivity|].
+  split; [|split].
+  - (* every entry lies inside the merged shape *)
+    intros t Ht. rewrite entries_mk in Ht. apply in_app_or in Ht. rewrite app_length.
+    destruct Ht as [Ht|Ht].
+    + destruct (Hra t Ht). lia.
+    + apply in_map_iff in Ht. destruct Ht as [u [<- Hu]]. destruct (Hrb u Hu) as [Hr Hc].
+      rewrite trow_mk, tcol_mk, Hna. split; [lia|].
+      pose proof (Hrho (Z.to_nat (tcol u)) _ ltac:(lia) eq_refl) as Hx. rewrite Z2Nat.id in Hx by lia.
+      apply index_of_Some in Hx. lia.
+  - intros d t Hd Ht. apply Hin. apply in_app_or in Hd. destruct Hd as [Hd|Hd]; [left; eapply Hta|right; eapply Htb]; eassumption.
+  - (* the cells *)
+    intros i l j Hi Hj. rewrite app_length in Hi. rewrite entries_mk, cell_app.
+    set (bottom := map (fun t => (trow t + nrows ta, rho lb lc (tcol t), tval t)) (entries tb)).
+    destruct (Nat.ltb_spec i (length Xa)) as [Hlt|Hge].
+    + (* a row of the left model *)
+      rewrite app_nth1 by exact Hlt.
+      rewrite (cell_zero bottom).
+      2:{ intros t Ht. apply in_map_iff in Ht. destruct Ht as [u [<- Hu]]. destruct (Hrb u Hu) as [Hr _].
+          unfold at_coord. rewrite trow_mk, Hna.
+          replace (trow u + Z.of_nat (length Xa) =? Z.of_nat i) with false; [reflexivity|].
+          symmetry. apply Z.eqb_neq. lia. }
+      rewrite Z.add_0_r. destruct (in_dec Z.eq_dec l la) as [Hl|Hl].
+      * apply Hcella; [exact Hlt|]. unfold lc in Hj. rewrite index_of_app_l in Hj by exact Hl. exact Hj.
+      * unfold lc in Hj. rewrite index_of_app_r in Hj by exact Hl.
+        destruct (index_of l ord) as [k|] eqn:Ek; [|discriminate]. injection Hj as <-.
+        apply index_of_Some in Ek. rewrite cell_zero.
+        -- replace (count_occ Z.eq_dec (nth i Xa []) l) with 0%nat; [reflexivity|].
+           symmetry. apply count_occ_not_In. intros Hc. apply Hl. eapply Hta; [|exact Hc]. apply nth_In. exact Hlt.
+        -- intros t Ht. destruct (Hra t Ht) as [_ Hc]. unfold at_coord.
+           replace (tcol t =? Z.of_nat (length la) + k) with false; [apply andb_false_r|].
+           symmetry. apply Z.eqb_neq. lia.
+    + (* a row of the right model *)
+      rewrite app_nth2 by exact Hge.
+      rewrite (cell_zero (entries ta)).
+      2:{ intros t Ht. destruct (Hra t Ht) as [Hr _]. unfold at_coord.
+          replace (trow t =? Z.of_nat i) with false; [reflexivity|]. symmetry. apply Z.eqb_neq. lia. }
+      rewrite Z.add_0_l. set (i' := (i - length Xa)%nat).
+      unfold bottom. rewrite cell_sum, map_map.
+      destruct (index_of l lb) as [jb|] eqn:Eb.
+      * rewrite <- (Hcellb i' l jb) by (exact Eb || lia). rewrite cell_sum. apply sumZ_map_ext. intros t Ht.
+        destruct (Hrb t Ht) as [Hr Hc]. unfold at_coord. rewrite trow_mk, tcol_mk, tval_mk, Hna.
+        replace (trow t + Z.of_nat (length Xa) =? Z.of_nat i) with (trow t =? Z.of_nat i')
+          by (apply eq_true_iff_eq; rewrite !Z.eqb_eq; unfold i'; lia).
+        replace (rho lb lc (tcol t) =? j) with (tcol t =? jb); [reflexivity|].
+        apply eq_true_iff_eq. rewrite !Z.eqb_eq.
+        pose proof (Hrho (Z.to_nat (tcol t)) _ ltac:(lia) eq_refl) as Hx. rewrite Z2Nat.id in Hx by lia.
+        pose proof (index_of_Some _ _ _ Eb) as [Hjb Hnb'].
+        split.
+        -- intros E. rewrite E in Hx. rewrite Hnb' in Hx. congruence.
+        -- intros E. rewrite <- E in Hj. pose proof (index_of_inj _ _ _ _ Hx Hj) as E2.
+           rewrite <- E2 in Eb. rewrite index_of_nth in Eb; [|exact NDb|lia]. injection Eb as Eb'. lia.
+      * rewrite sumZ_map_zero.
+        -- replace (count_occ Z.eq_dec (nth i' Xb []) l) with 0%nat; [reflexivity|].
+           symmetry. apply count_occ_not_In. intros Hc. apply (index_of_None _ _ Eb).
+           eapply Htb; [|exact Hc]. apply nth_In. unfold i'. lia.
+        -- intros t Ht. destruct (Hrb t Ht) as [Hr Hc]. unfold at_coord. rewrite tcol_mk.
+           replace (rho lb lc (tcol t) =? j) with false; [rewrite andb_false_r; reflexivity|].
+           symmetry. apply Z.eqb_neq. intros E.
+           pose proof (Hrho (Z.to_nat (tcol t)) _ ltac:(lia) eq_refl) as Hx. rewrite Z2Nat.id in Hx by lia.
+           rewrite E in Hx. pose proof (index_of_inj _ _ _ _ Hx Hj) as E2.
+           apply (index_of_None _ _ Eb). rewrite <- E2. apply nth_In. lia.
+Qed.
